@@ -824,8 +824,9 @@ int htp_parse_uri(bstr *input, htp_uri_t **uri) {
                 // IPv6 address.
 
                 m = memchr(hostname_start, ']', hostname_len);
-                if (m == NULL) {
-                    // Invalid IPv6 address; use the entire string as hostname.
+                if ((m == NULL) || ((m + 1 < hostname_start + hostname_len) && (m[1] != ':'))) {
+                    // Invalid IPv6 address (no closing bracket, or bytes other than a port
+                    // after it); use the entire string as hostname so that nothing is dropped.
                     (*uri)->hostname = bstr_dup_mem(hostname_start, hostname_len);
                     if ((*uri)->hostname == NULL) return HTP_ERROR;
                 } else {
